@@ -31,7 +31,7 @@ EXTENDS TraceIO, Build, IUP
 VARIABLES tid, verdict
 tvars == <<tid, verdict, pc, ds, nlocs, order, vf>>
 
-RatJ(p) == Rat(p[1], p[2])
+RatJ(p) == IF p[2] = 1 THEN <<p[1], 1>> ELSE Rat(p[1], p[2])
 AxisJ(a) == [min |-> RatJ(a.min), def |-> RatJ(a.def), max |-> RatJ(a.max),
              map |-> TLCEval([i \in 1..Len(a.map) |-> <<RatJ(a.map[i][1]), RatJ(a.map[i][2])>>])]
 AxesJ(t) == TLCEval([a \in 1..Len(t.axes) |-> AxisJ(t.axes[a])])
@@ -59,7 +59,7 @@ OnGrid(v, den) == ROk(v) /\ den % v[2] = 0
    to stay apart by more than 2 e after rounding (else skipped). *)
 IdealKnots(ax) ==
   LET ut == UserTriple(ax) dt == DesignTriple(ax)
-      K == SetToSeq({k \in KnotUsers(ax) : RLe(ax.min, k) /\ RLe(k, ax.max)})
+      K == SortedKnots(ax)
       P == {<<NormalizeValue(K[i], ut), NormalizeValue(MapFwd(ax, K[i]), dt)>> : i \in 1..Len(K)}
   IN SortSeq(SetToSeq(P), LAMBDA p, q : RLt(p[1], q[1]))
 MaxSlope(ks) ==
@@ -67,19 +67,22 @@ MaxSlope(ks) ==
   IN IF slopes = {} THEN RZero ELSE CHOOSE s \in slopes : \A q \in slopes : RLe(q, s)
 KnotsApart(ks) == \A i \in 1..(Len(ks) - 1) : RLt(Rat(1, 4096), RSub(ks[i + 1][1], ks[i][1]))
 AxisExact(ks) == \A i \in 1..Len(ks) : OnGrid(ks[i][1], 16384) /\ OnGrid(ks[i][2], 16384)
-AxisTol(ks) == IF AxisExact(ks) THEN RZero ELSE RMul(E15, RAdd(ROne, RMul(RInt(3), MaxSlope(ks))))
+(* an integer upper bound of the steepest slope keeps the tolerance a plain number *)
+SlopeBound(ks) == LET s == MaxSlope(ks) IN IF RBad(s) THEN 0 ELSE -((-s[1]) \div s[2])
+AxisTol(ks) == IF AxisExact(ks) THEN RZero ELSE RMul(E15, RInt(1 + 3 * SlopeBound(ks)))
 
 JAxis(ax, fv, av) ==
   LET ks == IdealKnots(ax)
       tol == AxisTol(ks)
       fvt == <<RatJ(fv[1]), RatJ(fv[2]), RatJ(fv[3])>>
       seg == TLCEval([i \in 1..Len(av) |-> <<RatJ(av[i][1]), RatJ(av[i][2])>>])
-      bad == {u \in Probes(ax) : ~AxisMappingAt(ax, fvt, seg, u, tol)}
+      dt == DesignTriple(ax)
+      obs == {<<NormalizeVF(fvt, seg, u), AxisMappingWantT(ax, dt, u)>> : u \in Probes(ax)}
   IN IF ~(OnGrid(ax.min, 65536) /\ OnGrid(ax.def, 65536) /\ OnGrid(ax.max, 65536)) THEN "skip:axis value not representable in 16.16"
      ELSE IF ~AxisExact(ks) /\ ~KnotsApart(ks) THEN "skip:map knots closer than F2Dot14 resolves"
-     ELSE IF RBad(tol) \/ \E u \in Probes(ax) : WithinBad(NormalizeVF(fvt, seg, u), AxisMappingWant(ax, u), tol) THEN "skip:overflow"
+     ELSE IF RBad(tol) \/ \E o \in obs : WithinBad(o[1], o[2], tol) THEN "skip:overflow"
      ELSE IF ~PwlWellFormed(seg) THEN "AxisMapping:avar-not-a-map"
-     ELSE IF bad # {} THEN "AxisMapping"
+     ELSE IF \E o \in obs : ~Within(o[1], o[2], tol) THEN "AxisMapping"
      ELSE "ok"
 
 (* ---- regions, scalars, perturbation bounds ------------------------------------------------------- *)
@@ -103,22 +106,56 @@ RoundingKeepsMastersApart(nl) ==
 RECURSIVE RowSum(_, _, _, _)
 RowSum(rows, vec, i, acc) ==
   IF i > Len(rows) THEN acc
-  ELSE LET a == RAdd(acc, RMul(vec[rows[i][1] + 1], RatJ(rows[i][2]))) IN RowSum(rows, vec, i + 1, a)
+  ELSE LET s == vec[rows[i][1] + 1]
+           a == IF RIsZero(s) THEN acc ELSE IF s = ROne THEN RAdd(acc, RInt(rows[i][2])) ELSE RAdd(acc, RMul(s, RInt(rows[i][2])))
+       IN RowSum(rows, vec, i + 1, a)
 RECURSIVE RowAbsSum(_, _, _, _)
 RowAbsSum(rows, vec, i, acc) ==
   IF i > Len(rows) THEN acc
-  ELSE LET a == RAdd(acc, RMul(vec[rows[i][1] + 1], RAbs(RatJ(rows[i][2])))) IN RowAbsSum(rows, vec, i + 1, a)
+  ELSE LET s == vec[rows[i][1] + 1]
+           a == IF RIsZero(s) THEN acc ELSE RAdd(acc, RMul(s, RInt(IAbs(rows[i][2]))))
+       IN RowAbsSum(rows, vec, i + 1, a)
 
-JItem(it, m, SMm, PMm) ==
-  LET got == RAdd(RatJ(it.b), RowSum(it.r, SMm, 1, RZero))
+(* items are integers (design units).  Slow, general path in rationals: *)
+JItemRat(it, m, SMm, PMm) ==
+  LET got == RAdd(RInt(it.b), RowSum(it.r, SMm, 1, RZero))
       tol == RAdd(RHalf, RowAbsSum(it.r, PMm, 1, RZero))
-      want == RatJ(it.v[m])
+      want == RInt(it.v[m][1])
   IN IF RBad(tol) \/ WithinBad(got, want, tol) THEN "overflow" ELSE IF Within(got, want, tol) THEN "ok" ELSE "differs"
+(* Fast path, the same inequality in integers: when no region is sloped at this master (fx.exact: the
+   slack is exactly 1/2) the scalars are fx.si[r] / fx.q, and
+        |b + sum si*d / q - want| <= 1/2   <=>   2 * |q*b + sum si*d - q*want| <= q.
+   Used only when every product fits 31 bits (guard by division), else the general path. *)
+RECURSIVE RowIntSum(_, _, _, _)
+RowIntSum(rows, si, i, acc) == IF i > Len(rows) THEN acc
+                               ELSE LET a == acc + si[rows[i][1] + 1] * rows[i][2] IN RowIntSum(rows, si, i + 1, a)
+RECURSIVE RowIntAbs(_, _, _)
+RowIntAbs(rows, i, acc) == IF i > Len(rows) THEN acc ELSE LET a == acc + IAbs(rows[i][2]) IN RowIntAbs(rows, i + 1, a)
+Big == 1073741824
+JItem(it, m, fx, SMm, PMm) ==
+  LET mag == IAbs(it.b) + IAbs(it.v[m][1]) + RowIntAbs(it.r, 1, 0) IN
+  IF fx.exact /\ mag <= Big \div fx.q
+  THEN LET d == fx.q * it.b + RowIntSum(it.r, fx.si, 1, 0) - fx.q * it.v[m][1]
+       IN IF 2 * IAbs(d) <= fx.q THEN "ok" ELSE "differs"
+  ELSE JItemRat(it, m, SMm, PMm)
+(* per master: common denominator of the scalars, integer numerators, exactness *)
+RECURSIVE LcmDen(_, _, _)
+LcmDen(v, i, acc) == IF i > Len(v) THEN acc
+                     ELSE IF acc = 0 \/ v[i][2] = 0 THEN 0
+                     ELSE LET d == v[i][2]
+                              g == RGcd(acc, d)
+                              a == IF acc \div g > 65536 \div d THEN 0 ELSE (acc \div g) * d
+                          IN LcmDen(v, i + 1, a)
+Fixed(SMm, PMm) ==
+  LET q == LcmDen(SMm, 1, 1)
+  IN IF q = 0 \/ \E r \in 1..Len(PMm) : ~RIsZero(PMm[r]) THEN [exact |-> FALSE, q |-> 1, si |-> <<>>]
+     ELSE [exact |-> TRUE, q |-> q, si |-> TLCEval([r \in 1..Len(SMm) |-> SMm[r][1] * (q \div SMm[r][2])])]
+
 (* no row of the item peaks at (the F2Dot14 location of) a master that does not supply it; one unit of
    F2Dot14 for a tie rounded the other way *)
 Unit14 == Rat(1, 16384)
 ItemAvoids(it, regions, loc) ==
-  \A r \in 1..Len(it.r) : it.r[r][2][1] = 0 \/ ~PeaksAt(regions[it.r[r][1] + 1], loc, Unit14)
+  \A r \in 1..Len(it.r) : it.r[r][2] = 0 \/ ~PeaksAt(regions[it.r[r][1] + 1], loc, Unit14)
 
 (* ---- outline items --------------------------------------------------------------------------------- *)
 PtsJ(ps, den) == TLCEval([i \in 1..Len(ps) |-> <<Rat(ps[i][1], den), Rat(ps[i][2], den)>>])
@@ -150,9 +187,81 @@ JGlyphAt(g, full, m, SMm, PMm) ==
   IN IF Len(want) # g.cmp THEN "structure"
      ELSE IF "differs" \in vs THEN "differs" ELSE IF "overflow" \in vs THEN "overflow" ELSE "ok"
 
+(* the same inequality in integers (coordinates are integers / g.den): no optimised tuple, no sloped
+   region at this master, and q * g.mag fits (g.mag: largest |coordinate| + sum of the largest |delta|
+   of each tuple, supplied with the glyph; a wrong bound makes TLC abort, never mis-judge) *)
+RECURSIVE TupSum(_, _, _, _, _, _)
+TupSum(g, si, p, c, t, acc) ==
+  IF t > Len(g.tv) THEN acc
+  ELSE LET a == acc + si[g.tv[t].r + 1] * g.tv[t].d[p][c] IN TupSum(g, si, p, c, t + 1, a)
+JGlyphAtInt(g, m, fx) ==
+  IF Len(g.m[m]) # g.cmp THEN "structure"
+  ELSE IF \E p \in 1..g.cmp : \E c \in 1..2 :
+            2 * IAbs(TupSum(g, fx.si, p, c, 1, fx.q * g.pts[p][c]) - fx.q * g.m[m][p][c]) > g.den * fx.q
+       THEN "differs" ELSE "ok"
+JGlyph(g, full, m, fx, SMm, PMm) ==
+  IF fx.exact /\ g.mag <= Big \div fx.q /\ g.den <= 65536 /\ \A t \in 1..Len(g.tv) : ~Optimised(g.tv[t])
+  THEN JGlyphAtInt(g, m, fx) ELSE JGlyphAt(g, full, m, SMm, PMm)
+
 GlyphOK(g) == /\ Len(g.pts) >= g.cmp
               /\ \A t \in 1..Len(g.tv) : Len(g.tv[t].d) = Len(g.pts)
               /\ (\E t \in 1..Len(g.tv) : Optimised(g.tv[t])) => GlyphWellFormed(PtsJ(g.pts, g.den), g.ends)
+
+(* ---- HarfBuzz as an observer ------------------------------------------------------------------------
+   h == [m: source, u: user coordinates of that master, adv: <<glyph, advance in the font at u, advance in
+   the static master>>, pts: <<glyph, drawn points of the font at u, of the static master>> (x 1024)].
+   HarfBuzz normalises u itself (fvar, avar, all in F2Dot14): its coordinate can differ from R14(ideal) by
+     eps = e * (2 + 4 L)     (AxisTol e (1 + 3 L), the input rounded by e through a slope <= L, the output by e)
+   which moves the scalar of a region by at most eps / (narrowest slope of its tent) per axis (HBPert,
+   whatever the position, also next to a knot).  It rounds an advance to an integer (one more 1/2), draws
+   outlines in float32 (coordinates < 2^14: 2^-7 covers the arithmetic and the 1/1024 quantisation). *)
+HBEps(ax) == RMul(E15, RInt(2 + 4 * SlopeBound(IdealKnots(ax))))
+AxisHBPert(t, eps) ==
+  IF TentIgnored(t) THEN RZero
+  ELSE LET w1 == RSub(t[2], t[1]) w2 == RSub(t[3], t[2])
+           w == IF RIsZero(w1) THEN w2 ELSE IF RIsZero(w2) THEN w1 ELSE RMin(w1, w2)
+       IN RDiv(eps, w)
+RegionHBPert(reg, eps) == RSum(TLCEval([a \in 1..Len(reg) |-> AxisHBPert(reg[a], eps[a])]))
+FloatSlack == Rat(1, 128)
+MaxAbsDelta(tv) == LET S == {IAbs(tv.d[i][c]) : i \in {j \in 1..Len(tv.d) : Len(tv.d[j]) > 0}, c \in 1..2}
+                   IN IF S = {} THEN 0 ELSE CHOOSE x \in S : \A y \in S : y <= x
+ItemIndex(t, name) == {i \in 1..Len(t.items) : t.items[i].n = name}
+GlyphIndex(t, name) == {i \in 1..Len(t.glyphs) : t.glyphs[i].n = name}
+
+JHBRecord(t, h, regions, SM, PM, HP) ==
+  LET m == h.m
+      axes == ds.axes
+      here == \A a \in 1..Len(axes) : MapFwd(axes[a], RatJ(h.u[a])) = ds.srcs[m].loc[a]
+      both == TLCEval([r \in 1..Len(regions) |-> RAdd(PM[m][r], HP[r])])
+      (* a glyph is observed only if HarfBuzz and the projection agree on the static master's advance
+         (a partial master, e.g. without hhea, is not a font HarfBuzz can be asked about) *)
+      Trusted(name, madv) == LET idx == ItemIndex(t, "HVAR:" \o name) IN
+                             idx # {} /\ LET it == t.items[CHOOSE k \in idx : TRUE] IN Len(it.v[m]) > 0 /\ it.v[m][1] = madv
+      MasterAdv(name) == LET S == {i \in 1..Len(h.adv) : h.adv[i][1] = name} IN
+                         IF S = {} THEN -1 ELSE h.adv[CHOOSE i \in S : TRUE][3]
+      advbad == {i \in 1..Len(h.adv) :
+                  Trusted(h.adv[i][1], h.adv[i][3]) /\
+                  LET it == t.items[CHOOSE k \in ItemIndex(t, "HVAR:" \o h.adv[i][1]) : TRUE]
+                      tol == RAdd(ROne, RowAbsSum(it.r, both, 1, RZero))
+                  IN ROk(tol) /\ ~WithinBad(RInt(h.adv[i][2]), RInt(h.adv[i][3]), tol)
+                     /\ ~Within(RInt(h.adv[i][2]), RInt(h.adv[i][3]), tol)}
+      ptsbad == {i \in 1..Len(h.pts) :
+                  LET idx == GlyphIndex(t, h.pts[i][1]) IN
+                  idx # {} /\ Trusted(h.pts[i][1], MasterAdv(h.pts[i][1])) /\
+                  LET g == t.glyphs[CHOOSE k \in idx : TRUE]
+                      nt == Len(g.tv)
+                      iup == RMul(RHalf, RSum(TLCEval([k \in 1..nt |-> IF Optimised(g.tv[k]) THEN SM[m][g.tv[k].r + 1] ELSE RZero])))
+                      pert == RSum(TLCEval([k \in 1..nt |-> RMul(both[g.tv[k].r + 1], Rat(MaxAbsDelta(g.tv[k]), g.den))]))
+                      (* TrueType: HarfBuzz shifts the outline by the (interpolated) left phantom point: one more 1/2 *)
+                      shift == IF g.den = 1 /\ Len(g.pts) = g.cmp + 2 THEN RHalf ELSE RZero
+                      tol == RMul(RInt(1024), RAdd(RAdd(RAdd(RAdd(RHalf, shift), iup), pert), FloatSlack))
+                      a == h.pts[i][2]
+                      b == h.pts[i][3]
+                  IN ROk(tol) /\ (Len(a) # Len(b) \/ \E p \in 1..Len(a) : \E c \in 1..2 : RLt(tol, RInt(IAbs(a[p][c] - b[p][c]))))}
+  IN IF ~here THEN <<"elsewhere", "">>
+     ELSE IF advbad # {} THEN <<"HB:advance", h.adv[CHOOSE i \in advbad : TRUE][1]>>
+     ELSE IF ptsbad # {} THEN <<"HB:outline", h.pts[CHOOSE i \in ptsbad : TRUE][1]>>
+     ELSE <<"ok", "">>
 
 (* ---- the verdict ------------------------------------------------------------------------------------ *)
 AxisSkips == {"skip:axis value not representable in 16.16", "skip:map knots closer than F2Dot14 resolves", "skip:overflow"}
@@ -167,11 +276,15 @@ JudgeVF(t, nl) ==
       axv == TLCEval([a \in 1..Len(axes) |-> JAxis(axes[a], t.fvar[a], t.avar[a])])
       Supplies(v, m) == Len(v[m]) > 0
       SharedLoc(v, m) == \E p \in 1..n : Supplies(v, p) /\ nl[p] = nl[m]
-      iv == UNION {{<<JItem(t.items[i], m, SM[m], PM[m]), t.items[i].n, m>> : m \in {q \in 1..n : Supplies(t.items[i].v, q)}}
+      FX == TLCEval([m \in 1..n |-> Fixed(SM[m], PM[m])])
+      iv == UNION {{<<JItem(t.items[i], m, FX[m], SM[m], PM[m]), t.items[i].n, m>> : m \in {q \in 1..n : Supplies(t.items[i].v, q)}}
                      : i \in 1..Len(t.items)}
       gv == UNION {LET g == t.glyphs[i] full == GlyphDeltas(g) IN
-                   {<<JGlyphAt(g, full, m, SM[m], PM[m]), g.n, m>> : m \in {q \in 1..n : Supplies(g.m, q)}}
+                   {<<JGlyph(g, full, m, FX[m], SM[m], PM[m]), g.n, m>> : m \in {q \in 1..n : Supplies(g.m, q)}}
                      : i \in 1..Len(t.glyphs)}
+      HP == TLCEval([r \in 1..Len(regions) |-> RegionHBPert(regions[r], TLCEval([a \in 1..Len(axes) |-> HBEps(axes[a])]))])
+      hbv == {<<JHBRecord(t, t.hb[i], regions, SM, PM, HP), t.hb[i].m>> : i \in 1..Len(t.hb)}
+      hbbad == {x \in hbv : x[1][1] \notin {"ok", "elsewhere"}}
       ibad == {x \in iv : x[1] = "differs"}
       gbad == {x \in gv : x[1] \in {"differs", "structure"}}
       sparsebad == {x \in {<<i, m>> : i \in 1..Len(t.items), m \in 1..n} :
@@ -194,7 +307,9 @@ JudgeVF(t, nl) ==
                             <<IF x[1] = "structure" THEN "MasterReproduced:outline-structure" ELSE "MasterReproduced", "outline:" \o x[2], x[3]>>
      ELSE IF sparsebad # {} THEN LET x == CHOOSE x \in sparsebad : TRUE IN <<"SparseOK", t.items[x[1]].n, x[2]>>
      ELSE IF gsparsebad # {} THEN LET x == CHOOSE x \in gsparsebad : TRUE IN <<"SparseOK", "outline:" \o t.glyphs[x[1]].n, x[2]>>
-     ELSE IF (\E x \in iv : x[1] = "overflow") \/ (\E x \in gv : x[1] = "overflow") THEN <<"skip:overflow">>
+     ELSE IF hbbad # {} THEN LET x == CHOOSE x \in hbbad : TRUE IN <<x[1][1], "HarfBuzz:" \o x[1][2], x[2]>>
+     ELSE IF (\E x \in iv : x[1] = "overflow") \/ (\E x \in gv : x[1] = "overflow")
+          THEN <<"note:some comparisons of the build skipped (31-bit overflow), the others hold">>
      ELSE <<"ok">>
 
 Judge(t, nl, p) ==
